@@ -235,6 +235,9 @@ def model_exe(name):
 def build_drv(name):
     h = os.path.join(VERIF, "harness")
     shutil.copyfile(os.path.join(REPO, "go.sum"), os.path.join(h, "go.sum"))
+    write_if_changed(os.path.join(h, "go.mod"),
+                     "module verifharness\n\ngo 1.24.0\n\nrequire github.com/jech/galene v0.0.0\n\n"
+                     "replace github.com/jech/galene => %s\n" % REPO)
     rc, out = sh(["go", "build", "-tags", "verif", "-o", os.path.join(WORK, "drv_" + name), "./cmd/" + name],
                  cwd=h, env=goenv(), timeout=1800)
     return rc == 0, out
